@@ -726,6 +726,7 @@ func (h *Hub) removeSession(session Session) (removed bool) {
 	if session, ok := session.(*ClientSession); ok {
 		delete(h.anonymousSessions, session)
 		delete(h.dialoutSessions, session)
+		delete(h.federatedSessions, session)
 	}
 	if h.IsShutdownScheduled() && !h.hasSessionsLocked(false) {
 		go h.shutdown.Close()
